@@ -1055,10 +1055,19 @@ def rule_success(chk, funcs, names):
         pre0, loop0, post0 = L.split(stripped(vl0))
         res0 = [a for s_ in post0 for a in ast.walk(s_) if isinstance(a, ast.Assign) and compact(a.targets[0]) == 'result[0]' and isinstance(a.value, ast.Name)]
         pv0 = res0[0].value.id if len(res0) == 1 else None
-        saved0 = [a.targets[0].id for a in loop0.body[:2] if isinstance(a, ast.Assign) and isinstance(a.targets[0], ast.Name) and isinstance(a.value, ast.Name) and a.value.id == pv0]
+        saved0 = []
         cmp0 = [a.value for a in ast.walk(loop0) if isinstance(a, ast.Assign) and isinstance(a.value, ast.Compare) and len(a.value.ops) == 1 and 'tol' in compact(a.value)] + \
                [i_.test for i_ in ast.walk(loop0) if isinstance(i_, ast.If) and isinstance(i_.test, ast.Compare) and 'tol' in compact(i_.test) and any(isinstance(x, ast.Break) for x in ast.walk(i_))]
         okv = False
+        if pv0 and len(cmp0) == 1:
+            # the other quantity in the test: a copy of the iterate taken (at the top level of the pass) before the iterate is first assigned in that pass
+            others0 = sorted(set(x.id for x in ast.walk(cmp0[0]) if isinstance(x, ast.Name)) - set([pv0, 'abs', 'fabs', 'tol']))
+            if len(others0) == 1:
+                q_ = others0[0]
+                idx_q = [k_ for k_, a in enumerate(loop0.body) if isinstance(a, ast.Assign) and compact(a.targets[0]) == q_]
+                idx_p = [k_ for k_, a in enumerate(loop0.body) if any(isinstance(t_, ast.Name) and t_.id == pv0 and isinstance(t_.ctx, ast.Store) for t_ in ast.walk(a))]
+                if len(idx_q) == 1 and isinstance(loop0.body[idx_q[0]].value, ast.Name) and loop0.body[idx_q[0]].value.id == pv0 and idx_p and idx_q[0] < min(idx_p):
+                    saved0 = [q_]
         if pv0 and len(saved0) == 1 and len(cmp0) == 1:
             c0 = cmp0[0]
             l0, op0, r0 = c0.left, c0.ops[0], c0.comparators[0]
